@@ -161,6 +161,7 @@ def cone_of(target_v):
 
 
 def load_known():
+    """open findings: known_findings.json (committed; never written at run time)"""
     p = f"{VERIF}/known_findings.json"
     if not os.path.exists(p):
         return []
